@@ -535,6 +535,9 @@ package trzsz
 //@   ensures bufFrame(b)
 //@   ensures tbWF(b)
 //@   ensures [C16] err == nil ==> len(r0) > 0 && (forall j int {r0[j]} :: 0 <= j && j < len(r0) ==> isLetter(r0[j]))
+//@   # the read stops right after the '!' that ended the line, or after the one line feed directly behind it:
+//@   # nothing else that follows the line is consumed (a relay forwards it)
+//@   ensures [C13,C16] err == nil ==> G[b][cur(b) - 1] == 33 || (G[b][cur(b) - 1] == 10 && G[b][cur(b) - 2] == 33)
 //@   loop 1
 //@     invariant bufFrame(b)
 //@     invariant tbWF(b)
